@@ -1,0 +1,303 @@
+//go:build verif
+
+package main
+
+// In-process command driver for the verification harness in /verif. It is only
+// compiled with the verif build tag. It reads a JSON array of operations from
+// the file named by VERIF_SCRIPT, runs each against the unexported command
+// functions and flag types of this package and writes one JSON line per
+// operation to the file named by VERIF_OUT.
+
+import (
+	"context"
+	"encoding/json"
+	"flag"
+	"fmt"
+	"io"
+	"net"
+	"net/http"
+	"os"
+	"strconv"
+	"testing"
+	"time"
+
+	"github.com/tsenart/vegeta/v12/internal/resolver"
+	vegeta "github.com/tsenart/vegeta/v12/lib"
+)
+
+type verifOp struct {
+	Op        string      `json:"op"`
+	Sets      [][2]string `json:"sets,omitempty"`
+	Probe     bool        `json:"probe,omitempty"`
+	Addrs     []string    `json:"addrs,omitempty"`
+	Dials     int         `json:"dials,omitempty"`
+	Files     []string    `json:"files,omitempty"`
+	To        string      `json:"to,omitempty"`
+	Output    string      `json:"output,omitempty"`
+	Type      string      `json:"type,omitempty"`
+	Every     int64       `json:"every,omitempty"`
+	Buckets   string      `json:"buckets,omitempty"`
+	Threshold int         `json:"threshold,omitempty"`
+	Title     string      `json:"title,omitempty"`
+	Args      []string    `json:"args,omitempty"`
+	Steps     []string    `json:"steps,omitempty"`
+}
+
+type verifSet struct {
+	Flag   string `json:"flag"`
+	Value  string `json:"value"`
+	Err    string `json:"err"`
+	String string `json:"string"`
+}
+
+type verifOut struct {
+	Op        string              `json:"op"`
+	Err       string              `json:"err"`
+	Panic     string              `json:"panic,omitempty"`
+	Sets      []verifSet          `json:"sets,omitempty"`
+	RateFreq  string              `json:"rate_freq,omitempty"`
+	RatePer   string              `json:"rate_per,omitempty"`
+	Header    map[string][]string `json:"header,omitempty"`
+	MaxBody   string              `json:"max_body,omitempty"`
+	DNSTTL    string              `json:"dns_ttl,omitempty"`
+	ConnectTo map[string][]string `json:"connect_to,omitempty"`
+	Resolvers []string            `json:"resolvers,omitempty"`
+	Strings   map[string]string   `json:"strings,omitempty"`
+	ProbeErr  string              `json:"probe_err,omitempty"`
+	Dialed    []string            `json:"dialed,omitempty"`
+	Results   []json.RawMessage   `json:"results,omitempty"`
+	Encoded   []uint64            `json:"encoded,omitempty"`
+	StopFirst *bool               `json:"stop_first,omitempty"`
+	Returned  bool                `json:"returned,omitempty"`
+}
+
+func TestVerifDriver(t *testing.T) {
+	script, outf := os.Getenv("VERIF_SCRIPT"), os.Getenv("VERIF_OUT")
+	if script == "" || outf == "" {
+		t.Skip("VERIF_SCRIPT / VERIF_OUT not set")
+	}
+	bs, err := os.ReadFile(script)
+	if err != nil {
+		t.Fatal(err)
+	}
+	var ops []verifOp
+	if err = json.Unmarshal(bs, &ops); err != nil {
+		t.Fatal(err)
+	}
+	out, err := os.Create(outf)
+	if err != nil {
+		t.Fatal(err)
+	}
+	defer out.Close()
+	enc := json.NewEncoder(out)
+	for i := range ops {
+		if err = enc.Encode(verifRun(&ops[i])); err != nil {
+			t.Fatal(err)
+		}
+	}
+}
+
+func verifRun(op *verifOp) (res *verifOut) {
+	res = &verifOut{Op: op.Op}
+	defer func() {
+		if r := recover(); r != nil {
+			res.Panic = fmt.Sprint(r)
+		}
+	}()
+	switch op.Op {
+	case "flags":
+		verifFlags(op, res)
+	case "resolvers":
+		verifResolvers(op, res)
+	case "encode":
+		res.Err = verifErr(encode(op.Files, op.To, op.Output))
+	case "report":
+		res.Err = verifErr(report(op.Files, op.Type, op.Output, time.Duration(op.Every), op.Buckets))
+	case "plot":
+		res.Err = verifErr(plotRun(op.Files, op.Threshold, op.Title, op.Output))
+	case "attack":
+		res.Err = verifErr(attackCmd().fn(op.Args))
+	case "decoder":
+		verifDecoder(op, res)
+	case "pump":
+		verifPump(op, res)
+	default:
+		res.Err = "unknown op"
+	}
+	return res
+}
+
+func verifErr(err error) string {
+	if err == nil {
+		return ""
+	}
+	if s := err.Error(); s != "" {
+		return s
+	}
+	return "error"
+}
+
+func verifFlags(op *verifOp, res *verifOut) {
+	cmd := attackCmd()
+	for _, kv := range op.Sets {
+		s := verifSet{Flag: kv[0], Value: kv[1]}
+		if f := cmd.fs.Lookup(kv[0]); f == nil {
+			s.Err = "no such flag"
+		} else {
+			s.Err = verifErr(f.Value.Set(kv[1]))
+			s.String = f.Value.String()
+		}
+		res.Sets = append(res.Sets, s)
+	}
+	res.Strings = map[string]string{}
+	cmd.fs.VisitAll(func(f *flag.Flag) { res.Strings[f.Name] = f.Value.String() })
+	if rf, ok := cmd.fs.Lookup("rate").Value.(*rateFlag); ok {
+		res.RateFreq = strconv.Itoa(rf.Freq)
+		res.RatePer = strconv.FormatInt(int64(rf.Per), 10)
+	}
+	if h, ok := cmd.fs.Lookup("header").Value.(*headers); ok {
+		res.Header = h.Header
+	}
+	if f, ok := cmd.fs.Lookup("max-body").Value.(*maxBodyFlag); ok {
+		res.MaxBody = strconv.FormatInt(*f.n, 10)
+	}
+	if f, ok := cmd.fs.Lookup("dns-ttl").Value.(*dnsTTLFlag); ok {
+		res.DNSTTL = strconv.FormatInt(int64(*f.ttl), 10)
+	}
+	if f, ok := cmd.fs.Lookup("connect-to").Value.(*connectToFlag); ok && f.addrMap != nil {
+		res.ConnectTo = *f.addrMap
+	}
+	if f := cmd.fs.Lookup("resolvers"); f != nil {
+		if l, ok := f.Value.(*csl); ok {
+			res.Resolvers = *l
+		}
+	}
+	if op.Probe {
+		// Run the command's own validation; the missing targets file makes
+		// it return right after the checks that precede opening files.
+		saved := net.DefaultResolver
+		defer func() { net.DefaultResolver = saved }()
+		_ = cmd.fs.Lookup("targets").Value.Set("/nonexistent/verif-probe")
+		res.ProbeErr = verifErr(cmd.fn(nil))
+	}
+}
+
+func verifResolvers(op *verifOp, res *verifOut) {
+	r, err := resolver.NewResolver(op.Addrs)
+	if err != nil {
+		res.Err = verifErr(err)
+		return
+	}
+	for i := 0; i < op.Dials; i++ {
+		conn, err := r.Dial(context.Background(), "udp", "192.0.2.1:53")
+		if err != nil {
+			res.Dialed = append(res.Dialed, "error: "+err.Error())
+			continue
+		}
+		res.Dialed = append(res.Dialed, conn.RemoteAddr().String())
+		conn.Close()
+	}
+}
+
+// verifResult is a rendering of vegeta.Result by encoding/json that does not
+// go through any of the result codecs of the library.
+type verifResult struct {
+	Attack    string
+	Seq       uint64
+	Code      uint16
+	Timestamp string // Unix nanoseconds
+	Latency   int64
+	BytesOut  uint64
+	BytesIn   uint64
+	Error     string
+	Body      []byte
+	Method    string
+	URL       string
+	Headers   http.Header
+}
+
+func verifDecoder(op *verifOp, res *verifOut) {
+	dec, mc, err := decoder(op.Files)
+	defer mc.Close()
+	if err != nil {
+		res.Err = verifErr(err)
+		return
+	}
+	for {
+		var r vegeta.Result
+		if err = dec.Decode(&r); err != nil {
+			if err != io.EOF {
+				res.Err = verifErr(err)
+			}
+			return
+		}
+		bs, _ := json.Marshal(verifResult{
+			r.Attack, r.Seq, r.Code, strconv.FormatInt(r.Timestamp.UnixNano(), 10), int64(r.Latency),
+			r.BytesOut, r.BytesIn, r.Error, r.Body, r.Method, r.URL, r.Headers,
+		})
+		res.Results = append(res.Results, bs)
+	}
+}
+
+// verifPump drives processAttack with a scripted sequence of steps:
+// "result" (a result arrives), "signal" (an interrupt arrives), "close"
+// (the results channel is closed), "encfail" (the next encode fails).
+func verifPump(op *verifOp, res *verifOut) {
+	atk := vegeta.NewAttacker()
+	results := make(chan *vegeta.Result)
+	sig := make(chan os.Signal, 1)
+	failNext := false
+	enc := vegeta.Encoder(func(r *vegeta.Result) error {
+		if failNext {
+			return fmt.Errorf("encode failed")
+		}
+		res.Encoded = append(res.Encoded, r.Seq)
+		return nil
+	})
+	done := make(chan error, 1)
+	go func() { done <- processAttack(atk, results, enc, sig, nil) }()
+	var seq uint64
+	finished := false
+	wait := func() bool {
+		select {
+		case err := <-done:
+			res.Err, res.Returned, finished = verifErr(err), true, true
+			return true
+		case <-time.After(20 * time.Millisecond):
+			return false
+		}
+	}
+steps:
+	for _, s := range op.Steps {
+		switch s {
+		case "encfail":
+			failNext = true
+		case "result":
+			select {
+			case results <- &vegeta.Result{Seq: seq}:
+				seq++
+			case err := <-done:
+				res.Err, res.Returned, finished = verifErr(err), true, true
+				break steps
+			}
+		case "signal":
+			sig <- os.Interrupt
+			for i := 0; i < 500 && len(sig) > 0; i++ {
+				time.Sleep(time.Millisecond)
+			}
+			if wait() {
+				break steps
+			}
+		case "close":
+			close(results)
+			for i := 0; i < 100 && !wait(); i++ {
+			}
+			break steps
+		}
+	}
+	if !finished {
+		wait()
+	}
+	first := atk.Stop()
+	res.StopFirst = &first
+}
